@@ -35,8 +35,9 @@ PROPERTIES = {
             '(they are taken from three disjoint status classes of a dict\'s items; sorting permutes, slicing takes a prefix)',
             'history dict representation invariant (distinct keys, insertion order) assumed on reads (A10)',
             'datetimes are ordered by their timestamp() (P1)'],
-        'not_decided': ['third sentence ("eviction never changes what gets processed / can still be awaited", finding F11: an evicted in-flight parent is never signalled): not under contract - '
-                        'the parent walk of process_event looks ancestors up in bus histories; no post-condition about ancestors is stated, so F11 is neither proved absent nor reported by this check'],
+        'level': 'other',
+        'not_decided': ['third sentence ("eviction never changes what gets processed / can still be awaited"): stated for the direct parent only (process_event/ensures:completion_propagated_to_parent, '
+                        'open finding F11); that processing itself does not read the history is by inspection of step/_get_next_event (they read the queue only)'],
         'assumptions': [],
     },
     'C12': {
@@ -63,11 +64,11 @@ PROPERTIES = {
         'assumptions': [],
     },
     'C03': {
-        'functions': ['BaseEvent.__await__.wait', 'EventBus.process_event', 'CleanShutdownQueue.get_nowait', 'BaseEvent.event_completed_signal', 'BaseEvent.event_mark_complete_if_all_handlers_completed', 'BaseEvent.event_are_all_children_complete', 'BaseEvent.event_children'] + ['BaseEvent.event_completed_at', 'BaseEvent.event_status'],
+        'functions': ['BaseEvent.__await__.wait', 'EventBus.process_event', 'CleanShutdownQueue.get_nowait', 'BaseEvent.event_completed_signal', 'BaseEvent.event_mark_complete_if_all_handlers_completed', 'BaseEvent.event_are_all_children_complete', 'BaseEvent.event_children'] + ['BaseEvent.event_completed_at', 'BaseEvent.event_status', 'EventBus._execute_handlers', 'EventBus._get_applicable_handlers'],
         'level': 'other',
         'trusted_base': AWAIT_TB + ['event_are_all_children_complete / event_children: one-level contracts assumed (recursive walk not verified)'],
-        'not_decided': ['"always returns" and "the waiter is released without further stimulus" are liveness; the converse direction (completion propagates up the ancestor chain, finding F11) is not under contract: '
-                        'process_event\'s parent walk over bus histories is executed but no post-condition about ancestors is stated'],
+        'not_decided': ['"always returns" and "the waiter is released without further stimulus" are liveness; the converse direction is stated for the direct parent only '
+                        '(process_event/ensures:completion_propagated_to_parent, open finding F11), not for the whole ancestor chain'],
         'assumptions': [],
     },
     'C04': {
@@ -186,7 +187,8 @@ PROPERTIES = {
     },
     'C09': {
         'functions': ['EventBus.dispatch', 'EventBus._start', 'CleanShutdownQueue.put_nowait', 'EventBus.cleanup_event_history', 'EventBus._run_loop',
-                      'EventBus.step', 'EventBus._get_next_event'],
+                      'EventBus.step', 'EventBus._get_next_event', 'EventBus.execute_handler', 'BaseEvent.event_bus'],
+        'level': 'other',
         'trusted_base': [AX[k] for k in ('A1', 'A2', 'A5', 'A7', 'A10', 'X1', 'X2', 'P5')] + [
             'P6 distinct live events have distinct event_id (uuid7)', 'each child is listed at most once before the call (established by dispatch itself, the only writer of event_children)'],
         'not_decided': [],
@@ -230,7 +232,8 @@ PROPERTIES = {
             "semaphore_scope='multiprocess' (portalocker file locks, asyncio.to_thread) is out of reach: excluded by precondition",
             'the concurrency bound itself (at most L bodies in progress per key) is asyncio.Semaphore\'s (A6) given: one semaphore object per key '
             'created with L permits (registry clauses), body entered only holding a permit or in the lax-timeout case, every permit released exactly once'],
-        'not_decided': ['multiprocess scope', 'semaphores cached across successive event loops (finding F13: asyncio.Semaphore is loop-bound once contended)'],
+        'level': 'other',
+        'not_decided': ['multiprocess scope'],
         'assumptions': ['threading.Lock context managers around the registry are no-ops within one event-loop thread (A1)'],
     },
 }
